@@ -1,12 +1,14 @@
 SPECIFICATION Spec
 CONSTANTS NameOrder <- MCNameOrder
+          NNames = 2
           Targets = {1, 2}
           Tsizes = {0}
           DataVals = {"nil", "empty", "x"}
           Builders = {"v0", "v1"}
-          MaxLinks = 3
-          MaxSet = 2
+          MaxLinks = 2
+          MaxSet = 1
           SetLinksArgs <- MCSetLinksArgs
           Devs = {"Dev_C11_NilBuilderKeepsCid"}
-INVARIANTS TypeOK CidFresh RawFresh LinksFresh ObservedFresh StableOrder OrderIndependent DecodeRoundTrip CacheCoherent
-PROPERTIES ReplaceProp
+VIEW MCView
+INVARIANTS TypeOK CidFresh RawFresh LinksFresh StableOrder OrderIndependent DecodeRoundTrip CacheCoherent
+PROPERTIES ReplaceProp ObservedProp
